@@ -265,6 +265,12 @@ def burst_worker(a):
         for cid in half:
             lines.append("%d %s" % (cid, tail))
         gone = set(half)
+    if seed % 2 == 1:
+        # lines that are about nobody, here and there in the burst (an id no integer type holds, an id nobody has, a blank line, an
+        # unknown command): each is dropped on its own - the lines behind it in the same read are handled as if it were not there
+        for _ in range(rng.choice([1, 2, 5])):
+            lines.insert(rng.randrange(1, len(lines)), rng.choice(["99999999999999999999 H", "4294967301 H", "-99999999999999999999 D", "123456 D", "123457 T", "", "-1 zzz", "-1 M",
+                                                                   "123458 P :+x a b", "   ", "18446744073709551621 C 1.2.3.4 5 6.7.8.9 10"]))
     data = ("\n".join(lines) + "\n").encode("latin-1")
     if a.get("pad4096"):
         # the burst is a whole number of 4096-byte reads long: the last read fills the daemon's buffer exactly, and nothing follows
